@@ -1,5 +1,5 @@
 """C03 - water content and ponding within physical limits (kind B, exploration)."""
-from .common import std_case, std_run, reclamp_cn, hardpan_regime, HARDPAN_PROFILE, STATE_MEASURE  # noqa: F401
+from .common import std_case, std_run, reclamp_cn, hardpan_regime, HARDPAN_PROFILE, shallow_pond_regime, SHALLOW_POND_PROFILE, STATE_MEASURE  # noqa: F401
 from ..monitors import mon_c03
 
 ID = "C03"
@@ -24,6 +24,9 @@ def gen_case(rng, tier, idx):
     if idx % 4 == 3:
         # permeable top soil over a nearly impermeable porous pan, frequent rain: water backs up towards the surface
         return hardpan_regime(rng, std_case(rng, dict(PROFILE, **HARDPAN_PROFILE)))
+    if idx % 8 == 5:
+        # a series of storms each leaving a pond of a few millimetres behind empty bunds under a stressed canopy
+        return shallow_pond_regime(rng, std_case(rng, dict(PROFILE, **SHALLOW_POND_PROFILE)))
     case = std_case(rng, PROFILE)
     if idx % 4 == 1:
         # basin irrigation: high in-season bunds kept ponded (constant depth / interval irrigation, initial ponding), lower or
